@@ -196,15 +196,18 @@ Definition revert_newline (src : text) (pos : nat) : nat :=
            end in
   if c =? NL then Nat.pred pos else pos.
 
-(** [consume].  [strip] is how the token's source text is trimmed: [strip_ws] in the code as it
-    is (since the repair "token source is trimmed of the lexer's white space only"), [strip_py]
-    before that repair. *)
-Definition ts_consume_with (strip : text -> text) (ts : tstream) : res (option token * tstream) :=
+(** [consume].  The two arguments select the code as it is or as it was before a repair:
+    [strip]: how the token's source text is trimmed: [strip_ws] since 8cce868 ("token source is trimmed
+    of the lexer's white space only"), [strip_py] before;
+    [renew]: [if self._lexer.state is None: self._lexer = self._new_lexer()] before get_token(), since
+    a75c6db ("re-creates its lexer when shlex has reached end of file"); before, a lexer that had
+    reached end of file stayed there ([lex_past_eof]). *)
+Definition ts_consume_with (strip : text -> text) (renew : bool) (ts : tstream) : res (option token * tstream) :=
   if ts_err ts then Raise ExTokenSyntax else
   let src := ts_src ts in
   let ret_val := ts_head ts in
   let start := ts_io ts in
-  let '(r, k, eof') := if ts_eof ts then lex_past_eof (skipn start src)
+  let '(r, k, eof') := if (if renew then false else ts_eof ts) then lex_past_eof (skipn start src)
                        else lex_go SWs false [] 0 (skipn start src) in
   let io1 := (start + k)%nat in
   match r with
@@ -219,9 +222,11 @@ Definition ts_consume_with (strip : text -> text) (ts : tstream) : res (option t
       end
   end.
 
-Definition ts_consume : tstream -> res (option token * tstream) := ts_consume_with strip_ws.
-(** before the repair *)
-Definition ts_consume_prefix : tstream -> res (option token * tstream) := ts_consume_with strip_py.
+Definition ts_consume : tstream -> res (option token * tstream) := ts_consume_with strip_ws true.
+(** before 8cce868 (and a75c6db) *)
+Definition ts_consume_prefix : tstream -> res (option token * tstream) := ts_consume_with strip_py false.
+(** before a75c6db *)
+Definition ts_consume_sticky : tstream -> res (option token * tstream) := ts_consume_with strip_ws false.
 Definition ts_init_prefix (src : text) : res tstream :=
   match ts_consume_prefix (TS src 0 0 None false false) with Ok r => Ok (snd r) | Raise e => Raise e end.
 
@@ -237,8 +242,12 @@ Definition ts_remaining_part_of_current_line (ts : tstream) : text :=
        | Some p => slice src (ts_start ts) p
        end.
 
-(** [_consume_remaining_part_of_current_line(do_forward_to_next_line)] *)
-Definition ts_consume_line (fwd : bool) (ts : tstream) : res (text * tstream) :=
+(** [_consume_remaining_part_of_current_line(do_forward_to_next_line)].  [consume], [relex]: the
+    consume in force and the test that decides whether the look-ahead token is read again:
+    [ret_val.strip(self._lexer.whitespace)] non-empty since fbeae85 ("the rest of a line is re-lexed
+    unless it is blank for the lexer"), [ret_val and not ret_val.isspace()] before. *)
+Definition ts_consume_line_with (consume : tstream -> res (option token * tstream)) (relex : text -> bool)
+           (fwd : bool) (ts : tstream) : res (text * tstream) :=
   let src := ts_src ts in
   let additional := if fwd then 1%nat else 0%nat in
   if Nat.eqb (ts_start ts) (length src) then Ok ([], ts)
@@ -247,11 +256,17 @@ Definition ts_consume_line (fwd : bool) (ts : tstream) : res (text * tstream) :=
            Ok (skipn (ts_start ts) src, TS src (ts_io ts) (length src) None false (ts_eof ts))
        | Some p =>
            let ret_val := slice src (ts_start ts) p in
-           if nonempty ret_val && negb (py_str_isspace ret_val) then
-             do r <- ts_consume (TS src (p + additional) (ts_start ts) (ts_head ts) false (ts_eof ts));
+           if relex ret_val then
+             do r <- consume (TS src (p + additional) (ts_start ts) (ts_head ts) false (ts_eof ts));
              Ok (ret_val, snd r)
            else Ok (ret_val, TS src (ts_io ts) (p + additional) (ts_head ts) (ts_err ts) (ts_eof ts))
        end.
+Definition relex_lexer_blank (ret_val : text) : bool := nonempty (strip_ws ret_val).
+Definition relex_python_blank (ret_val : text) : bool := nonempty ret_val && negb (py_str_isspace ret_val).
+Definition ts_consume_line : bool -> tstream -> res (text * tstream) := ts_consume_line_with ts_consume relex_lexer_blank.
+(** before fbeae85 *)
+Definition ts_consume_line_stale : bool -> tstream -> res (text * tstream) :=
+  ts_consume_line_with ts_consume relex_python_blank.
 
 (** ** TokenParser (the methods the string / list parsers use) *)
 Definition tp_is_at_eol (ts : tstream) : bool :=
